@@ -97,6 +97,7 @@ def entries(db, qt, cat, base, other):
         ("ObtainQuantity(u)", lambda u: ObtainQuantity(u)),
         ("ObtainQuantity(u,c)", lambda u: ObtainQuantity(u, cat)),
         ("ObtainQuantity([(u,2)],[c])", lambda u: ObtainQuantity([(u, 2)], [cat])),
+        ("ObtainQuantity([(u,1)],[c])", lambda u: ObtainQuantity([(u, 1)], [cat])),
         ("ObtainQuantity(u,c,caption)", lambda u: ObtainQuantity(u, cat, "cap")),
         ("Quantity(c,u)", lambda u: Quantity(cat, u)),
         ("ObtainQuantity(OrderedDict)", lambda u: ObtainQuantity(__import__("collections").OrderedDict([(cat, [u, 3])]))),
